@@ -601,6 +601,7 @@ func verifC09Rank(rx, ry, rz int) {}
 //@   modifies heap(Projection), heap(Field), heap(keyNode), heap(*keyNode), heap(*Field), heap(string), heap(map[string]int), heap(map[string]string), heap(map[uint64][]*keyNode), heap(benchfmt.Result), heap(benchfmt.Config), heap(map[string]int)
 //@   ensures k.k != nil && k.k.proj == p
 //@   ensures r.Values === old(r.Values)
+//@   ensures forall q Key :: q.k != nil && old(q.k.proj) != nil ==> q.k.proj == old(q.k.proj)
 
 //@ func (p *Projection) ProjectValues(r *benchfmt.Result) (ks []Key)
 //@   trusted
